@@ -356,8 +356,11 @@ fn pair_tag(a: &Parsed, b: &Parsed, real: bool) -> Option<&'static str> {
 }
 /// which: 0 decimal_strcmp, 1 decimal_strcmp_with_sign, 2 realnum_strcmp, 3 realnum_strcmp_with_sign
 fn num_check(c: &mut Case, which: u32, fam: usize, invalid: bool) -> Res {
+    let pool = num_pool(&mut c.rng, which >= 2, fam, invalid);
+    num_check_pool(c, which, pool)
+}
+fn num_check_pool(c: &mut Case, which: u32, mut pool: Vec<String>) -> Res {
     let real = which >= 2; let with_sign = which % 2 == 1;
-    let mut pool = num_pool(&mut c.rng, real, fam, invalid);
     let mut ps: Vec<Parsed> = pool.iter().map(|s| parse_num(s, real)).collect();
     if with_sign { // precondition: sign already parsed, body made of digits (and at most one dot)
         let keep: Vec<bool> = ps.iter().map(|p| p.v != Validity::Invalid).collect();
@@ -493,8 +496,9 @@ fn model_lines(text: &str) -> Vec<(String, String)> {
     debug_assert!(v.iter().map(|x| x.0.as_str()).eq(text.lines()));
     v
 }
-fn lex_streaming(c: &mut Case, fam: usize) -> Res {
-    let text = gen_text(&mut c.rng, fam, true); let want: Vec<String> = model_lines(&text).into_iter().map(|x| x.0).collect();
+fn lex_streaming(c: &mut Case, fam: usize) -> Res { let text = gen_text(&mut c.rng, fam, true); lex_streaming_run(c, text) }
+fn lex_streaming_run(c: &mut Case, text: String) -> Res {
+    let want: Vec<String> = model_lines(&text).into_iter().map(|x| x.0).collect();
     let step = *c.rng.pick(&[1usize, 2, 3, 7, 64, 1 << 20]);
     c.input_str("text", &format!("{text:?}")); c.input_str("read_step", &step.to_string()); c.set_nontrivial(want.len() >= 2);
     if want.iter().any(|s| s.is_empty()) { c.tag("empty_line"); }
@@ -528,7 +532,11 @@ fn bsearch_check(acc: &mut Acc, sorted: &[String], t: &str, r: Result<usize, usi
 /// mode: 0 sort_lexicographic/sort, 1 radix_sort, 2 sort_by_length, 3 sort_by(custom), 4 large (block binary search)
 fn sortable_check(c: &mut Case, mode: u32, fam: usize) -> Res {
     let n = match mode { 4 => 513 + c.rng.usize_below(900), 1 => if c.rng.bool() { 33 + c.rng.usize_below(260) } else { c.rng.usize_below(40) }, _ => if c.rng.chance(1, 8) { c.rng.usize_below(3) } else { 2 + c.rng.usize_below(70) } };
-    let list = str_list(&mut c.rng, fam, n); let n = list.len();
+    let list = str_list(&mut c.rng, fam, n);
+    sortable_run(c, mode, list)
+}
+fn sortable_run(c: &mut Case, mode: u32, list: Vec<String>) -> Res {
+    let n = list.len();
     c.input_str("list", &show_list(&list)); c.set_nontrivial(n >= 2);
     let mut v = match c.rng.below(3) { 0 => SortableStrVec::new(), 1 => SortableStrVec::with_capacity(c.rng.usize_below(2 * n + 1)), _ => SortableStrVec::from_iter(list[..n / 2].iter()).map_err(zerr("from_iter"))? };
     for (i, s) in list.iter().enumerate().skip(v.len()) { let id = if c.rng.bool() { v.push_str(s) } else { v.push(s.clone()) }.map_err(zerr("push"))?; ensure!(id == i, "push_id", "push returned id {id} want {i}"); }
@@ -562,7 +570,7 @@ fn sortable_check(c: &mut Case, mode: u32, fam: usize) -> Res {
         for i in 0..n { ensure!(v.get(i) == Some(model[i].as_str()), "get_after_sort", "insertion-order get({i}) changed by sorting"); }
         c.ev(3 * n as u64);
         if matches!(mode, 0 | 1 | 4) {
-            let mut ps = probes_for(&mut c.rng, &want); if mode == 4 { for _ in 0..150 { ps.push(c.rng.pick(&want).clone()); } for k in (0..n).step_by(64) { ps.push(want[k].clone()); if k > 0 { ps.push(want[k - 1].clone()); } } }
+            let mut ps = probes_for(&mut c.rng, &want); if mode == 4 || n > 4096 { for _ in 0..150 { ps.push(c.rng.pick(&want).clone()); } for k in (0..n).step_by(64) { ps.push(want[k].clone()); if k > 0 { ps.push(want[k - 1].clone()); } } }
             for t in ps { let r = v.binary_search(&t); bsearch_check(&mut acc, &want, &t, r, "binary_search"); c.ev(1); }
             c.note(if n > 512 { "bsearch_block_path" } else { "bsearch_std_path" }, 1);
         }
@@ -592,6 +600,9 @@ fn zo_check(c: &mut Case, mode: u32, fam: usize) -> Res {
     let n = if c.rng.chance(1, 8) { c.rng.usize_below(3) } else if c.rng.chance(1, 6) { 100 + c.rng.usize_below(200) } else { 2 + c.rng.usize_below(40) };
     let mut list = str_list(&mut c.rng, fam, n);
     if mode == 4 { for _ in 0..1 + c.rng.usize_below(3) { let m = c.rng.below(8) as u32; let s = ustr(&mut c.rng, m); let cs: Vec<char> = s.chars().collect(); let k = c.rng.usize_below(cs.len() + 1); let mut t: String = cs[..k].iter().collect(); t.push('\0'); t.extend(cs[k..].iter()); list.push(t); } c.tag("contains_nul"); }
+    zo_run(c, mode, list)
+}
+fn zo_run(c: &mut Case, mode: u32, list: Vec<String>) -> Res {
     c.input_str("list", &show_list(&list)); c.set_nontrivial(list.len() >= 2);
     let mut want = list.clone(); want.sort();
     let z = match mode {
@@ -614,7 +625,7 @@ fn zo_check(c: &mut Case, mode: u32, fam: usize) -> Res {
     }
     if mode == 3 {
         let ps = probes_for(&mut c.rng, &want);
-        for _ in 0..30 { let (a, b) = (c.rng.pick(&ps).clone(), c.rng.pick(&ps).clone());
+        for _ in 0..(if want.len() > 4096 { 5 } else { 30 }) { let (a, b) = (c.rng.pick(&ps).clone(), c.rng.pick(&ps).clone());
             let dup = if dup_count(&want, &a) >= 2 || dup_count(&want, &b) >= 2 { c.tag("dup_range_bound"); Some("dup_range_bound") } else { None };
             let r = z.range(&a, &b); let hint = r.len(); let got: Vec<String> = r.map(|s| s.to_string()).collect();
             let w: Vec<String> = want.iter().filter(|s| s.as_str() >= a.as_str() && s.as_str() < b.as_str()).cloned().collect();
@@ -737,8 +748,9 @@ fn expect_lines(text: &str, cfg: &LineProcessorConfig) -> Vec<String> {
 }
 fn mk_lp(text: &str, cfg: &LineProcessorConfig, step: usize) -> LineProcessor<Chunky> { LineProcessor::with_config(Chunky { data: text.as_bytes().to_vec(), pos: 0, step }, cfg.clone()) }
 /// which: 0 process(+find,+split_by,+stats,+early stop), 1 batches, 2 batches early stop, 3 count_lines, 4 utils, 5 analyze_text, 6 secure config
-fn line_check(c: &mut Case, which: u32, fam: usize) -> Res {
-    let text = gen_text(&mut c.rng, fam, false); c.input_str("text", &format!("{text:?}"));
+fn line_check(c: &mut Case, which: u32, fam: usize) -> Res { let text = gen_text(&mut c.rng, fam, false); line_run(c, which, text) }
+fn line_run(c: &mut Case, which: u32, text: String) -> Res {
+    c.input_str("text", &format!("{text:?}"));
     let cfg = gen_cfg(c, which == 6); let step = *c.rng.pick(&[1usize, 3, 1 << 20]);
     let want = expect_lines(&text, &cfg); let raw_n = model_lines(&text).len(); c.set_nontrivial(raw_n >= 2);
     let mut acc = Acc::default();
@@ -961,4 +973,326 @@ pub fn run(ctx: &mut Ctx) {
         for (w, t) in ["unicode/validate_count", "unicode/utf32_iter", "unicode/analyze", "unicode/case", "case/ascii_bmi2"].iter().enumerate() { ctx.case(t, "mix", idx, |c| unicode_check(c, w as u32)); }
     }
     ctx.case("word/charclass", "all_bytes", 0, |c| charclass_check(c));
+    run_huge(ctx);
+}
+
+// =============================================================================================
+// huge_* families: sizes around 2^16 / 2^17 / 2^20, > 65 536 elements, every alignment mod 64.
+// Oracles are linear (identity / planted positions / std sort / precomputed runs).
+// =============================================================================================
+const HUGE_LENS: &[usize] = &[65535, 65536, 65537, 131071, 131072, 131073, 131074, (1 << 20) - 1, 1 << 20, (1 << 20) + 1];
+fn huge_len(r: &mut Rng) -> usize { if r.chance(1, 3) { (128 << 10) + r.usize_below((1 << 20) - (128 << 10) + 1) } else { *r.pick(HUGE_LENS) } }
+const HUGE_SHAPES: &[&str] = &["dominant", "all_equal", "runs", "period", "two_halves", "uniform"];
+fn huge_bytes(r: &mut Rng, shape: usize, len: usize) -> Vec<u8> {
+    match shape % 6 {
+        0 => { let sym = r.next() as u8; let pct = 60 + r.below(40); (0..len).map(|_| if r.below(100) < pct { sym } else { r.next() as u8 }).collect() }
+        1 => vec![r.next() as u8; len],
+        2 => { let mut v = Vec::with_capacity(len); while v.len() < len { let b = r.next() as u8; let n = 1 + r.usize_below(100_000); let k = n.min(len - v.len()); v.resize(v.len() + k, b); } v }
+        3 => { let p = 1 + r.usize_below(9); let pat = r.bytes(p); (0..len).map(|i| pat[i % p]).collect() }
+        4 => { let half = (len.saturating_sub(2)) / 2; let x = if r.bool() { r.bytes(half) } else { let s = r.next() as u8; (0..half).map(|_| if r.chance(9, 10) { s } else { r.next() as u8 }).collect() };
+               let mut v = Vec::with_capacity(len); v.extend_from_slice(&x); v.push(b'c'); v.extend_from_slice(&x); v.push(b'd'); while v.len() < len { v.push(b'e'); } v }
+        _ => r.bytes(len),
+    }
+}
+/// A buffer in which a copy of the content can be placed at any address residue mod 64.
+struct Mover { buf: Vec<u8> }
+impl Mover {
+    fn new(len: usize) -> Mover { Mover { buf: vec![0x5a; len + 192] } }
+    /// copy `data` so that its first byte lies at an address congruent to `residue` mod 64
+    fn place(&mut self, data: &[u8], residue: usize) -> &[u8] {
+        let base = self.buf.as_ptr() as usize; let off = (residue % 64 + 64 - base % 64) % 64;
+        self.buf[off..off + data.len()].copy_from_slice(data); &self.buf[off..off + data.len()]
+    }
+}
+fn huge_variant(r: &mut Rng, a: &[u8], rel: usize) -> Vec<u8> {
+    let len = a.len(); let mut b = a.to_vec();
+    match rel % 6 {
+        0 => {}
+        1 => { b[len - 1] ^= 1 << r.below(8); }
+        2 => { let k = if len > 65537 { 65536 + r.usize_below(len - 65536) } else { len / 2 }; b[k] = b[k].wrapping_add(1 + r.below(255) as u8); }
+        3 => { b.truncate(len - 1 - r.usize_below(3)); }
+        4 => { let half = (len - 2) / 2; b.swap(half, 2 * half + 1); } // two_halves: X d X c
+        _ => { let k = r.usize_below(len); b[k] = if b[k] < 0x80 { 0x80 | b[k] } else { b[k] & 0x7f }; }
+    }
+    b
+}
+const HUGE_RELS: &[&str] = &["equal", "last_byte", "diff_beyond_64k", "prefix", "swap_cd", "sign_flip"];
+fn faststr_cmp_huge(c: &mut Case, shape: usize, rel: usize) -> Res {
+    let len = huge_len(&mut c.rng); let a = huge_bytes(&mut c.rng, shape, len); let b = huge_variant(&mut c.rng, &a, rel);
+    c.input_str("shape", HUGE_SHAPES[shape % 6]); c.input_str("rel", HUGE_RELS[rel % 6]); c.input("a", &a); c.input("b", &b); c.set_nontrivial(true);
+    let want = a.as_slice().cmp(b.as_slice()); let cpl = cpl_model(&a, &b); let eq = a == b;
+    let (mut ma, mut mb) = (Mover::new(a.len()), Mover::new(b.len()));
+    for r in 0..64usize {
+        let pa = ma.place(&a, r); let pb = mb.place(&b, (r * 7 + 3) % 64);
+        ensure!(pa.as_ptr() as usize % 64 == r, "harness", "placement residue");
+        let (fa, fb, ga, gb) = (FastStr::new(&a), FastStr::new(&b), FastStr::new(pa), FastStr::new(pb));
+        ensure!(ga == fa && fa == ga && ga.cmp(&fa) == Ordering::Equal && ga.compare(fa) == Ordering::Equal, "eq_across_copies", "len {len}: copy at address residue {r} is not equal to the original");
+        ensure!(ga.cmp(&gb) == want && gb.cmp(&ga) == want.reverse() && ga.cmp(&fb) == want, "cmp_across_copies", "len {len} residues {r},{}: cmp={:?} want {want:?}", (r * 7 + 3) % 64, ga.cmp(&gb));
+        ensure!((ga == gb) == eq && (ga != gb) != eq && (ga < gb) == (want == Ordering::Less), "eq_across_copies", "len {len} residue {r}: eq={} want {eq}", ga == gb);
+        if r % 8 == 0 { ensure!(ga.common_prefix_len(gb) == cpl, "common_prefix_len", "got {} want {cpl}", ga.common_prefix_len(gb)); ensure!(ga == a.as_slice() && (ga == b.as_slice()) == eq, "eq_bytes", "mixed-type eq"); c.ev(2); }
+        c.ev(7);
+    }
+    Ok(())
+}
+fn faststr_hash_huge(c: &mut Case, shape: usize, rel: usize) -> Res {
+    let len = huge_len(&mut c.rng); let a = huge_bytes(&mut c.rng, shape, len); let b = huge_variant(&mut c.rng, &a, rel);
+    c.input_str("shape", HUGE_SHAPES[shape % 6]); c.input_str("rel", HUGE_RELS[rel % 6]); c.input("a", &a); c.input("b", &b); c.set_nontrivial(true);
+    let fa = FastStr::new(&a); let h0 = fa.hash_fast(); let t0 = trait_hash(&fa);
+    ensure!(h0 == model_hash(&a), "hash_model", "hash_fast={:x} portable definition={:x} len={len}", h0, model_hash(&a));
+    let mut ma = Mover::new(a.len());
+    for r in 0..64usize {
+        let g = FastStr::new(ma.place(&a, r));
+        ensure!(g.hash_fast() == h0, "hash_alignment", "len {len}: hash_fast differs for equal bytes at address residue {r}: {:x} vs {:x}", g.hash_fast(), h0);
+        ensure!(trait_hash(&g) == t0, "hash_trait_eq", "len {len}: Hash differs for equal strings at residue {r}"); c.ev(2);
+    }
+    let boxed: Box<[u8]> = a.clone().into_boxed_slice(); ensure!(FastStr::new(&boxed).hash_fast() == h0, "hash_allocation", "hash differs for a copy in another allocation");
+    let fb = FastStr::new(&b); let hb = fb.hash_fast(); ensure!(hb == model_hash(&b), "hash_model", "variant: hash_fast={:x} portable={:x}", hb, model_hash(&b));
+    if a == b { ensure!(hb == h0 && trait_hash(&fb) == t0, "eq_implies_hash_eq", "a==b but hashes differ"); } else if hb == h0 { c.note("hash_collision", 1); }
+    let mut set: HashSet<FastStr> = HashSet::new(); set.insert(fa); set.insert(FastStr::new(&boxed)); set.insert(fb);
+    ensure!(set.len() == if a == b { 1 } else { 2 }, "hashset_distinct", "HashSet has {} entries", set.len());
+    c.note(&format!("tail{}", len % 8), 1); c.ev(5); Ok(())
+}
+fn faststr_search_huge(c: &mut Case, shape: usize) -> Res {
+    let len = huge_len(&mut c.rng); let mut hay = huge_bytes(&mut c.rng, shape, len);
+    for x in hay.iter_mut() { if *x >= 0xfd { *x = 1; } } // 0xFD / 0xFE never occur in the filler
+    let m = 2 + c.rng.usize_below(40); let mut needle: Vec<u8> = vec![0xfe]; for _ in 0..m - 2 { needle.push(c.rng.below(0xfd) as u8); } needle.push(0xfe);
+    let p1 = match c.rng.below(5) { 0 => 65535, 1 => 65536, 2 => 65537 - m.min(3), 3 => len - m, _ => if len > 66_000 { 65536 + c.rng.usize_below(len - m - 65536 + 1) } else { len - m } }.min(len - m).max(100);
+    hay[p1..p1 + m].copy_from_slice(&needle);
+    let p2 = if p1 + 2 * m + 10 < len { let p = p1 + m + 1 + c.rng.usize_below(len - p1 - 2 * m); hay[p..p + m].copy_from_slice(&needle); Some(p) } else { None };
+    c.input_str("shape", HUGE_SHAPES[shape % 6]); c.input("hay", &hay); c.input("needle", &needle); c.input_str("p1", &p1.to_string()); c.set_nontrivial(true);
+    let mut mv = Mover::new(len); let res = c.rng.usize_below(64); let fh = FastStr::new(mv.place(&hay, res));
+    let chk = |got: Option<usize>, want: Option<usize>, what: &str| -> Res { ensure!(got == want, "find", "{what}: got {got:?} want {want:?} (hay len {len}, planted at {p1} and {p2:?})"); Ok(()) };
+    chk(fh.find(FastStr::new(&needle)), Some(p1), "planted marker needle")?;
+    chk(fh.find(FastStr::new(&hay[p1 - 63.min(p1)..p1 + 1])), Some(p1 - 63.min(p1)), "filler run + first marker byte")?;
+    chk(fh.find(FastStr::new(&hay[p1 - 100..p1 + m])), Some(p1 - 100), "100 filler bytes + marker needle")?;
+    let repetitive = matches!(shape % 6, 1 | 2 | 3); // naive search is O(n*m) there: keep the long needle near the front
+    let back = p1.min(70_000); // needle of back + m > 65 536 bytes
+    if !repetitive || p1 - back < 2_000 { chk(fh.find(FastStr::new(&hay[p1 - back..p1 + m])), Some(p1 - back), "needle longer than 64 KiB")?; c.note("needle_gt_64k", 1); }
+    let mut absent = needle.clone(); absent[m - 1] = 0xfd; chk(fh.find(FastStr::new(&absent)), None, "needle matching all but its last byte")?;
+    chk(fh.find(FastStr::new(&[0xfd, 0xfd])), None, "absent bytes")?;
+    chk(fh.find(FastStr::new(&hay)), Some(0), "needle == haystack")?;
+    chk(fh.find_byte(0xfe), Some(p1), "find_byte(marker)")?; chk(fh.find_byte_optimized(0xfe), Some(p1), "find_byte_optimized(marker)")?; chk(fh.find(FastStr::new(&[0xfe])), Some(p1), "find(single marker byte)")?;
+    chk(fh.find_byte(0xfd), None, "find_byte(absent)")?; chk(fh.find_byte_optimized(0xfd), None, "find_byte_optimized(absent)")?;
+    c.ev(12);
+    for k in [65536usize, 65537, len - 1, len] { let k = k.min(len);
+        ensure!(fh.starts_with(FastStr::new(&hay[..k])) && fh.ends_with(FastStr::new(&hay[len - k..])), "starts_with", "prefix/suffix of length {k} not recognised");
+        let mut x = hay[..k].to_vec(); x[k - 1] ^= 0x40; ensure!(!fh.starts_with(FastStr::new(&x)), "starts_with", "prefix of length {k} with last byte changed accepted");
+        let mut y = hay[len - k..].to_vec(); y[0] ^= 0x40; ensure!(!fh.ends_with(FastStr::new(&y)), "ends_with", "suffix of length {k} with first byte changed accepted"); c.ev(4); }
+    Ok(())
+}
+fn faststr_slice_huge(c: &mut Case, shape: usize) -> Res {
+    let len = huge_len(&mut c.rng); let a = huge_bytes(&mut c.rng, shape, len);
+    c.input_str("shape", HUGE_SHAPES[shape % 6]); c.input("a", &a); c.set_nontrivial(true);
+    let mut mv = Mover::new(len); let res = c.rng.usize_below(64); let f = FastStr::new(mv.place(&a, res)); let n = len;
+    ensure!(f.len() == n && f.as_bytes() == a.as_slice(), "view", "len/as_bytes differ");
+    let pts: Vec<usize> = vec![0, 1, 65535, 65536, 65537, n / 2, n - 1, n, n + 1, 1 << 20, (1 << 20) + 1, usize::MAX, c.rng.usize_below(n), 65536 + c.rng.usize_below(n.saturating_sub(65536))];
+    for &s in &pts {
+        ensure!(f.substring_from(s).as_bytes() == &a[s.min(n)..], "substring_from", "substring_from({s})"); ensure!(f.prefix(s).as_bytes() == &a[..s.min(n)], "prefix", "prefix({s})");
+        ensure!(f.suffix(s).as_bytes() == &a[n - s.min(n)..], "suffix", "suffix({s})"); ensure!(f.get_byte(s) == a.get(s).copied(), "get_byte", "get_byte({s})"); c.ev(4);
+        if s <= n { for &l in &[0usize, 1, 65535, 65536, 65537, n, usize::MAX] { let e = s.saturating_add(l).min(n); let got = catch(|| f.substring(s, l)).map_err(|p| bad("substring_panic", format!("substring({s},{l}) on len {n}: {}", p.msg)))?; ensure!(got.as_bytes() == &a[s..e], "substring", "substring({s},{l}) len {} want {}", got.len(), e - s); c.ev(1); } }
+    }
+    ensure!(f.as_str() == std::str::from_utf8(&a).ok(), "as_str", "as_str differs from from_utf8");
+    let mut cnt = [0usize; 256]; for &x in &a { cnt[x as usize] += 1; } let dom = (0..256).max_by_key(|&i| cnt[i]).unwrap() as u8;
+    for d in [dom, a[n - 1], 0xfdu8] { let want = split_model(&a, d); let mut k = 0usize; for p in f.split(d) { ensure!(k < want.len() && p.as_bytes() == want[k].as_slice(), "split", "split({d:#x}): part {k} differs (want {} parts)", want.len()); k += 1; }
+        ensure!(k == want.len(), "split", "split({d:#x}) gave {k} parts want {}", want.len()); c.note(if want.len() > 65536 { "split_parts_gt_64k" } else { "split_parts_le_64k" }, 1); c.ev(1); }
+    Ok(())
+}
+
+fn huge_num_pool(r: &mut Rng, real: bool) -> Vec<String> {
+    let l = *r.pick(&[65535usize, 65536, 65537, 131073, (1 << 20) + 1]); let d = rand_digits(r, l);
+    let chg = |s: &str, k: usize| { let mut x = s.as_bytes().to_vec(); x[k] = if x[k] == b'9' { b'8' } else { x[k] + 1 }; String::from_utf8(x).unwrap() };
+    let k_far = if l > 65540 { 65536 + r.usize_below(l - 65536) } else { l - 2 };
+    let mut v = vec![d.clone(), chg(&d, l - 1), chg(&d, k_far), format!("{}{d}", "0".repeat(*r.pick(&[1usize, 65536, 70_001]))), format!("{d}0"), d[..l - 1].to_string(), format!("-{d}"), format!("-{}", chg(&d, k_far)), format!("+{d}")];
+    if real {
+        let mut f = rand_digits(r, l); f.pop(); f.push('7'); let z = *r.pick(&[1usize, 65536, 70_001]);
+        v.truncate(5);
+        v.extend([format!("1.{f}"), format!("1.{f}{}", "0".repeat(z)), format!("1.{}", chg(&f, k_far.min(l - 2))), format!("{d}.{f}"), format!("{d}.{}", "0".repeat(z)), format!("{}1.{f}", "0".repeat(z)), format!("-1.{f}"), format!("-{d}.{f}")]);
+    }
+    r.shuffle(&mut v); v
+}
+fn huge_num_invalid_pool(r: &mut Rng, real: bool) -> Vec<String> {
+    let l = *r.pick(&[65537usize, 131073]); let d = rand_digits(r, l); let k = 65536 + r.usize_below(l - 65536);
+    let ins = |ch: &str| format!("{}{ch}{}", &d[..k], &d[k..]);
+    let mut v = vec![d.clone(), format!("-{d}"), ins("x"), ins(" "), ins("-"), ins("٣"), format!("{d} "), format!("{d}e5"), ins("."), format!("{}.{}.", &d[..k], &d[k..])];
+    if real { v.push(format!("{}..{}", &d[..k], &d[k..])); }
+    r.shuffle(&mut v); v
+}
+
+fn counter_strings(r: &mut Rng, n: usize, shape: usize) -> Vec<String> {
+    let mut v: Vec<String> = Vec::with_capacity(n);
+    match shape % 4 {
+        0 => { for i in 0..n { v.push(format!("k{:x}", (i as u64).wrapping_mul(0x9e37_79b9) % 0xfff_ffff)); } }
+        1 => { let heavy = format!("h{:05}", r.below(99999)); for i in 0..n { if i < 66_000 { v.push(heavy.clone()); } else { v.push(format!("h{:05}", r.below(3000) * 33)); } } }
+        2 => { for i in 0..n { if i < 66_000 { v.push(String::new()); } else { let m = r.below(8) as u32; v.push(ustr(r, m)); } } }
+        _ => { let pre = "shared/prefix/".repeat(1 + r.usize_below(12)); for i in 0..n { let ch = char::from_u32(0x20 + (i as u32 % 0x7c0)).unwrap_or('x'); v.push(format!("{pre}{ch}{}", i / 0x7c0)); } } // full fan-out under one long prefix, keys differ in high bytes
+    }
+    r.shuffle(&mut v); v
+}
+const COUNTS: &[usize] = &[65_537, 70_001, 100_003, 131_073];
+const LIST_SHAPES: &[&str] = &["distinct", "heavy_dup", "many_empty", "prefix_fanout"];
+fn lex_sortedvec_huge(c: &mut Case, shape: usize) -> Res {
+    let n = *c.rng.pick(COUNTS); let mut v = counter_strings(&mut c.rng, n, shape); v.sort();
+    c.input_str("shape", LIST_SHAPES[shape % 4]); c.input_str("n", &n.to_string()); c.hash_more(show_list(&v[..64]).as_bytes()); c.set_nontrivial(true);
+    let mut it = SortedVecLexIterator::new(&v);
+    ensure!(it.size_hint() == Some(n), "size_hint", "size_hint={:?}", it.size_hint());
+    let mut i = 0usize; while let Some(s) = it.current() { ensure!(i < n && s == v[i], "enumerate_forward", "position {i}: {s:?}"); i += 1; if !it.next().map_err(zerr("next"))? { break; } }
+    ensure!(i == n && it.is_at_end(), "enumerate_forward", "forward enumeration yielded {i} of {n}");
+    it.seek_end().map_err(zerr("seek_end"))?; let mut i = n; while let Some(s) = it.current() { ensure!(i > 0 && s == v[i - 1], "enumerate_backward", "position {}: {s:?}", i - 1); i -= 1; if !it.prev().map_err(zerr("prev"))? { break; } }
+    ensure!(i == 0, "enumerate_backward", "backward enumeration stopped at {i}"); c.ev(2 * n as u64);
+    let mut ts: Vec<String> = vec![String::new(), "\u{10ffff}".into()]; for &k in &[0usize, 1, 65534, 65535, 65536, 65537, n / 2, n - 2, n - 1] { let k = k.min(n - 1); ts.push(v[k].clone()); ts.push(format!("{}\0", v[k])); } for _ in 0..60 { ts.push(c.rng.pick(&v).clone()); }
+    for t in ts {
+        let lb = v.partition_point(|s| s.as_str() < t.as_str()); let ub = v.partition_point(|s| s.as_str() <= t.as_str());
+        let exact = it.seek_lower_bound(&t).map_err(zerr("seek_lower_bound"))?;
+        ensure!(exact == (lb < n && v[lb] == t), "seek_lower_bound_exact", "seek_lower_bound({t:?}) returned {exact}");
+        ensure!(it.current() == v.get(lb).map(|s| s.as_str()), "seek_lower_bound_current", "seek_lower_bound({t:?}): current()={:?} want index {lb}", it.current());
+        // position is exact iff the predecessor is the model's predecessor (< target): O(1) instead of counting to the end
+        if lb < n && lb > 0 { ensure!(it.prev().map_err(zerr("prev"))? && it.current() == Some(v[lb - 1].as_str()), "seek_lower_bound_pos", "seek_lower_bound({t:?}): predecessor is {:?}, want {:?} (index {})", it.current(), v[lb - 1], lb - 1); }
+        it.seek_upper_bound(&t).map_err(zerr("seek_upper_bound"))?;
+        ensure!(it.current() == v.get(ub).map(|s| s.as_str()), "seek_upper_bound_pos", "seek_upper_bound({t:?}): current()={:?} want index {ub} ({} duplicates)", it.current(), ub - lb);
+        if ub < n && ub > 0 { ensure!(it.prev().map_err(zerr("prev"))? && it.current() == Some(v[ub - 1].as_str()), "seek_upper_bound_pos", "seek_upper_bound({t:?}): predecessor differs"); }
+        c.ev(4);
+    }
+    for pre in ["", "h", "k", "shared/prefix/", &v[n / 2][..v[n / 2].char_indices().nth(2).map_or(v[n / 2].len(), |x| x.0)]] {
+        let cnt = zipora::string::utils::lex_utils::count_with_prefix(SortedVecLexIterator::new(&v), pre).map_err(zerr("count_with_prefix"))?; let want = v.iter().filter(|s| s.starts_with(pre)).count();
+        ensure!(cnt == want, "count_with_prefix", "count_with_prefix({pre:?})={cnt} want {want}"); if want > 65536 { c.note("prefix_count_gt_64k", 1); } c.ev(1); }
+    Ok(())
+}
+/// > 65 536 lines, lines of 16 KiB / 64 KiB +- 1 (BufReader capacities), CRLF straddling offset 65536, > 1 MiB in total.
+fn huge_text(r: &mut Rng, sorted: bool) -> String {
+    let n = 66_000 + r.usize_below(6000); let mut lines: Vec<String> = Vec::with_capacity(n + 8);
+    for _ in 0..n { lines.push(match r.below(8) { 0 => String::new(), 1 => " ".into(), 2 => "x".into(), 3 => "ab cd,ef".into(), 4 => " \t".into(), _ => { let m = 1 + r.below(7) as u32; ustr(r, m) } }); }
+    for l in [16383usize, 16384, 16385, 65535, 65536, 65537, 70_000 + r.usize_below(200_000)] { let ch = (b'a' + r.below(26) as u8) as char; let mut s: String = std::iter::repeat(ch).take(l).collect(); if r.bool() { s.insert(l / 2, ','); s.pop(); } lines.push(s); }
+    if sorted { lines.sort(); } else { r.shuffle(&mut lines); let k = lines.iter().position(|l| l.len() == 65535).unwrap(); lines.swap(0, k); }
+    let mut t = String::with_capacity(2 << 20); let crlf_first = !sorted;
+    for (i, l) in lines.iter().enumerate() { t.push_str(l); if i + 1 == lines.len() && r.bool() { break; } t.push_str(if (i == 0 && crlf_first) || r.chance(1, 3) { "\r\n" } else { "\n" }); }
+    t
+}
+
+fn join_huge(c: &mut Case, which: u32) -> Res {
+    let many = c.rng.bool(); c.input_str("shape", if many { "many_parts" } else { "long_parts" });
+    let np = if many { 65_537 + c.rng.usize_below(5000) } else { 2 + c.rng.usize_below(4) };
+    let sep: String = if many { (*c.rng.pick(&["", ",", "é", "\0", ", "])).to_string() } else { "-=".repeat(*c.rng.pick(&[0usize, 1, 32768, 32769, 40_000])) };
+    let part = |r: &mut Rng| -> String { if many { let m = r.below(8) as u32; if r.chance(1, 3) { String::new() } else { ustr(r, m).chars().take(4).collect() } } else { let l = *r.pick(&[0usize, 65535, 65536, 65537, 300_000]); let ch = *r.pick(&['a', 'é', '世']); std::iter::repeat(ch).take(l / ch.len_utf8()).collect() } };
+    c.input_str("np", &np.to_string()); c.input_str("sep_len", &sep.len().to_string()); c.set_nontrivial(true);
+    if which == 4 { let parts: Vec<&'static [u8]> = (0..np).map(|_| *c.rng.pick(STATIC_PARTS)).collect(); let owned: Vec<Vec<u8>> = parts.iter().map(|p| p.to_vec()).collect(); c.hash_more(&join_model(b"|", &owned[..64.min(np)]));
+        let got = zipora::string::join_bytes_iter(sep.as_bytes(), parts.into_iter()); ensure!(got == join_model(sep.as_bytes(), &owned), "join_bytes_iter", "{np} parts: result of {} bytes differs", got.len()); c.ev(1); return Ok(()); }
+    let parts: Vec<String> = (0..np).map(|_| part(&mut c.rng)).collect(); c.hash_more(show_list(&parts[..parts.len().min(64)]).as_bytes());
+    let pb: Vec<Vec<u8>> = parts.iter().map(|p| p.clone().into_bytes()).collect(); let want = join_model(sep.as_bytes(), &pb); let refs: Vec<&str> = parts.iter().map(|s| s.as_str()).collect();
+    c.note(if want.len() > (1 << 20) { "result_gt_1mib" } else { "result_le_1mib" }, 1);
+    match which {
+        0 => { let r: Vec<&[u8]> = pb.iter().map(|p| p.as_slice()).collect(); let got = zipora::string::join(sep.as_bytes(), &r); ensure!(got == want, "join", "{np} parts: result of {} bytes differs (want {})", got.len(), want.len()); }
+        1 => { let got = zipora::string::join_str(&sep, &refs); ensure!(got.as_bytes() == want.as_slice(), "join_str", "{np} parts: result of {} bytes differs (want {})", got.len(), want.len()); }
+        2 => { let fs: Vec<FastStr> = pb.iter().map(|p| FastStr::new(p)).collect(); let got = zipora::string::join_fast_str(&sep, &fs); ensure!(got.as_bytes() == want.as_slice(), "join_fast_str", "{np} parts: result of {} bytes differs (want {})", got.len(), want.len()); }
+        3 => { let got = zipora::string::join_iter(&sep, refs.iter()); ensure!(got.as_bytes() == want.as_slice(), "join_iter", "{np} parts: result of {} bytes differs (want {})", got.len(), want.len()); }
+        _ => { let mut b = zipora::string::JoinBuilder::with_capacity(&sep, *c.rng.pick(&[0usize, 65537, 131073])); for (i, p) in refs.iter().enumerate() { b.push(p); if i % 16384 == 0 { ensure!(b.len() == i + 1, "join_builder_len", "len after {} pushes = {}", i + 1, b.len()); } }
+               ensure!(b.len() == np, "join_builder_len", "len={} want {np}", b.len()); let g = b.build(); ensure!(g.as_bytes() == want.as_slice(), "join_builder", "{np} parts: result of {} bytes differs (want {})", g.len(), want.len()); }
+    }
+    c.ev(1); Ok(())
+}
+
+fn word_huge(c: &mut Case, which: u32) -> Res {
+    use zipora::string::{find_word_boundaries, is_word_boundary, word_at_position, word_count, words};
+    let shape = c.rng.below(4); let len = huge_len(&mut c.rng).max(70_000); let bshape = c.rng.usize_below(6);
+    let t: Vec<u8> = match shape { 0 => { let mut v = Vec::with_capacity(len); while v.len() < len { let l = 1 + c.rng.usize_below(3); for _ in 0..l { v.push(*c.rng.pick(b"abZ09_")); } v.push(*c.rng.pick(b" ,\n\x80")); } v.truncate(len); v }
+        1 => { let mut v = vec![b'a'; len]; v[65536] = b' '; v } 2 => { let mut v = vec![b' '; len]; v[65535] = b'w'; v[65536] = b'w'; v[len - 1] = b'z'; v } _ => huge_bytes(&mut c.rng, bshape, len) };
+    c.input_str("shape", ["many_words", "giant_word", "sparse_words", "bytes"][shape as usize]); c.input("text", &t); c.set_nontrivial(true); let n = t.len();
+    // runs: (start, end) of each maximal word-character run
+    let mut runs: Vec<(usize, usize)> = Vec::new(); let mut i = 0; while i < n { if wc(t[i]) { let s = i; while i < n && wc(t[i]) { i += 1; } runs.push((s, i)); } else { i += 1; } }
+    c.note(if runs.len() > 65536 { "words_gt_64k" } else { "words_le_64k" }, 1); let maxrun = runs.iter().map(|r| r.1 - r.0).max().unwrap_or(0);
+    match which {
+        0 => { let model = |p: usize| p == 0 || p >= n || wc(t[p - 1]) != wc(t[p]); for p in 0..n + 3 { ensure!(is_word_boundary(&t, p) == model(p), "is_word_boundary", "pos {p}"); }
+            let got = find_word_boundaries(&t); let mut k = 0usize; for p in 0..=n { if model(p) { ensure!(got.get(k) == Some(&p), "find_word_boundaries", "boundary #{k}: got {:?} want {p}", got.get(k)); k += 1; } } ensure!(got.len() == k, "find_word_boundaries", "got {} boundaries want {k}", got.len()); c.ev(n as u64 + k as u64); }
+        1 => { let mut k = 0usize; for w in words(&t) { ensure!(k < runs.len() && w == &t[runs[k].0..runs[k].1], "words", "word #{k} differs"); k += 1; } ensure!(k == runs.len(), "words", "words() gave {k} words want {}", runs.len());
+            ensure!(word_count(&t) == runs.len(), "word_count", "word_count={} want {}", word_count(&t), runs.len()); c.ev(k as u64 + 1); }
+        _ => { let mut ps: Vec<usize> = vec![0, 1, 65534, 65535, 65536, 65537, n - 1, n, n + 1]; let extra = if maxrun > 4096 { 60 } else { 3000 }; for _ in 0..extra { ps.push(c.rng.usize_below(n)); } for r in runs.iter().take(if maxrun > 4096 { 8 } else { 1500 }) { ps.push(r.0); ps.push(r.1 - 1); ps.push(r.1); }
+            for p in ps { let want = if p < n && wc(t[p]) { let k = runs.partition_point(|r| r.1 <= p); Some(runs[k]) } else { None }; ensure!(word_at_position(&t, p) == want, "word_at_position", "pos {p}: {:?} want {want:?}", word_at_position(&t, p)); c.ev(1); } }
+    }
+    Ok(())
+}
+fn splitter_huge(c: &mut Case, strategy: u32) -> Res {
+    let mut sp = match strategy { 0 => LineSplitter::new(), 1 => LineSplitter::new().with_delimiter("::".to_string()), _ => LineSplitter::new().with_optimized_strategy() };
+    let d = *c.rng.pick(&[",", "\t", " ", "::", "é"]); let nf = 65_537 + c.rng.usize_below(5000); let big = c.rng.usize_below(nf); let mut line = String::with_capacity(nf * 4 + 70_000);
+    for i in 0..nf { if i > 0 { line.push_str(d); } if i == big { line.extend(std::iter::repeat('q').take(65_537)); } else if !c.rng.chance(1, 4) { line.push((b'a' + c.rng.below(26) as u8) as char); if c.rng.chance(1, 8) { line.push('世'); } } }
+    if c.rng.bool() { line.push('z'); }
+    c.input_str("delim", &format!("{d:?}")); c.input_str("fields", &nf.to_string()); c.hash_more(line.as_bytes()); c.set_nontrivial(true);
+    if strategy == 2 && matches!(d, "," | "\t" | " ") { c.note("optimized_path", 1); }
+    let got = sp.split(&line, d); let mut k = 0usize; for f in line.split(d) { ensure!(got.get(k).map(|s| s.as_str()) == Some(f), "split_fields", "field #{k} differs: got {:?}", got.get(k).map(|s| s.len())); k += 1; }
+    ensure!(got.len() == k, "split_fields", "split gave {} fields want {k}", got.len()); c.ev(k as u64);
+    let g2 = sp.split("a", d).len(); ensure!(g2 == 1, "split_fields", "buffer not reset after a huge split: {g2} fields"); Ok(())
+}
+fn big_ustring(r: &mut Rng, target: usize) -> String { let pieces: Vec<String> = (0..24).map(|_| { let m = 1 + r.below(7) as u32; let mut s = ustr(r, m); if r.chance(1, 3) { s.push(*r.pick(&['\n', '\r', '\0', '\u{1b}', 'Σ', 'ς', 'İ', 'ß', '9', ' '])); } s }).collect(); let mut s = String::with_capacity(target + 256); while s.len() < target { let p: &String = r.pick(&pieces[..]); s.push_str(p); } s }
+fn unicode_huge(c: &mut Case, which: u32) -> Res {
+    let target = huge_len(&mut c.rng).clamp(70_000, 600_000);
+    match which {
+        0 => { let s = if c.rng.chance(1, 4) { "x".repeat(target) } else { big_ustring(&mut c.rng, target) }; let mut b = s.into_bytes();
+            let kind = c.rng.below(4); match kind { 0 => {} 1 => { let k = 65536 + c.rng.usize_below(b.len() - 65536); b.insert(k, *c.rng.pick(&[0xffu8, 0x80, 0xc0, 0xf8])); } 2 => { b.extend_from_slice(&"世".as_bytes()[..2]); } _ => { b.extend_from_slice("😀".as_bytes()); } }
+            c.input_str("kind", ["valid", "bad_byte_beyond_64k", "truncated_tail", "valid_4byte_tail"][kind as usize]); c.input("bytes", &b); c.set_nontrivial(true);
+            let want = std::str::from_utf8(&b).ok().map(|s| s.chars().count()); let got = catch(|| zipora::string::validate_utf8_and_count_chars(&b)).map_err(|p| bad("panic", format!("validate_utf8_and_count_chars panicked: {}", p.msg)))?;
+            ensure!(got.as_ref().ok().copied() == want, "validate_utf8_and_count_chars", "got {:?} want {want:?} (len {})", got.as_ref().ok(), b.len());
+            ensure!(Utf8ToUtf32Iterator::new(&b).is_ok() == want.is_some(), "utf32_iter_validation", "Utf8ToUtf32Iterator::new disagrees with from_utf8"); c.ev(2); }
+        1 => { let s = big_ustring(&mut c.rng, target.min(300_000)); c.input_str("s", &format!("{:?}", &s[..s.char_indices().nth(40).map_or(s.len(), |x| x.0)])); c.hash_more(s.as_bytes()); c.set_nontrivial(true);
+            let mut it = Utf8ToUtf32Iterator::new(s.as_bytes()).map_err(zerr("Utf8ToUtf32Iterator::new"))?; let mut n = 0usize;
+            for (off, ch) in s.char_indices() { ensure!(it.byte_position() == off, "utf32_iter_position", "char #{n}: byte_position={} want {off}", it.byte_position()); let g = it.next_char(); ensure!(g == Some(ch) && it.current() == Some(ch), "utf32_iter_forward", "char #{n}: got {g:?} want {ch:?}"); n += 1; }
+            ensure!(it.next_char().is_none() && it.byte_position() == s.len(), "utf32_iter_forward", "not at end after {n} chars");
+            for (off, ch) in s.char_indices().rev() { let g = it.prev_char(); ensure!(g == Some(ch) && it.byte_position() == off, "utf32_iter_backward", "at byte {off}: got {g:?} want {ch:?}"); }
+            ensure!(it.prev_char().is_none(), "utf32_iter_backward", "prev_char at start returned Some"); c.note(if n > 65536 { "chars_gt_64k" } else { "chars_le_64k" }, 1); c.ev(2 * n as u64); }
+        2 => { let s = big_ustring(&mut c.rng, target); c.hash_more(s.as_bytes()); c.input_str("len", &s.len().to_string()); c.set_nontrivial(true);
+            let a = UnicodeProcessor::new().analyze(&s); let cnt = |f: &dyn Fn(char) -> bool| s.chars().filter(|&ch| f(ch)).count();
+            ensure!(a.byte_count == s.len() && a.char_count == s.chars().count(), "analysis_counts", "bytes={} chars={}", a.byte_count, a.char_count);
+            ensure!(a.ascii_count == cnt(&|ch| ch.is_ascii()) && a.alphabetic_count == cnt(&|ch| ch.is_alphabetic()) && a.numeric_count == cnt(&|ch| ch.is_numeric()) && a.whitespace_count == cnt(&|ch| ch.is_whitespace()) && a.control_count == cnt(&|ch| ch.is_control()), "analysis_classes", "got {a:?}");
+            ensure!(a.basic_latin + a.latin_supplement + a.extended_latin + a.other_unicode == a.char_count && a.basic_latin == a.ascii_count, "analysis_blocks", "got {a:?}"); c.ev(8); }
+        3 => { use zipora::string::utils::unicode_utils::{extract_codepoints, to_lowercase_unicode, to_uppercase_unicode};
+            let s = big_ustring(&mut c.rng, target.min(300_000)); c.hash_more(s.as_bytes()); c.input_str("len", &s.len().to_string()); c.set_nontrivial(true);
+            ensure!(to_lowercase_unicode(&s) == s.to_lowercase(), "to_lowercase", "differs from str::to_lowercase"); ensure!(to_uppercase_unicode(&s) == s.to_uppercase(), "to_uppercase", "differs from str::to_uppercase");
+            let g = UnicodeProcessor::new().with_case_folding(true).process(&s).map_err(zerr("process"))?; ensure!(g == s.to_lowercase(), "process_case_fold", "differs");
+            ensure!(extract_codepoints(&s).into_iter().eq(s.chars().map(|ch| ch as u32)), "extract_codepoints", "differs"); c.ev(4); }
+        _ => { let mut s = big_ustring(&mut c.rng, target); for _ in 0..c.rng.usize_below(8) { s.push('Q'); } c.hash_more(s.as_bytes()); c.input_str("len", &s.len().to_string()); c.set_nontrivial(true);
+            let lo = zipora::string::to_lowercase_ascii_bmi2(&s); ensure!(lo == s.to_ascii_lowercase(), "to_lowercase_ascii", "differs (len {})", s.len());
+            let up = zipora::string::to_uppercase_ascii_bmi2(&s); ensure!(up == s.to_ascii_uppercase(), "to_uppercase_ascii", "differs (len {})", s.len()); c.ev(2); }
+    }
+    Ok(())
+}
+
+fn run_huge(ctx: &mut Ctx) {
+    let per = ctx.n(1, 12) as u64;
+    for (sh, sn) in HUGE_SHAPES.iter().enumerate() {
+        for idx in 0..per {
+            let rel = (sh + idx as usize * 5 + 1) % 6;
+            ctx.case("faststr/cmp", &format!("huge_align/{sn}"), idx, |c| faststr_cmp_huge(c, sh, rel));
+            ctx.case("faststr/hash", &format!("huge_align/{sn}"), idx, |c| faststr_hash_huge(c, sh, rel));
+            ctx.case("faststr/search", &format!("huge_find/{sn}"), idx, |c| faststr_search_huge(c, sh));
+            ctx.case("faststr/slice", &format!("huge_slice/{sn}"), idx, |c| faststr_slice_huge(c, sh));
+        } }
+    let per = ctx.n(2, 30) as u64;
+    for idx in 0..per {
+        for (which, t) in ["num/decimal", "num/decimal_with_sign", "num/realnum", "num/realnum_with_sign"].iter().enumerate() {
+            ctx.case(t, "huge_digits", idx, |c| { let p = huge_num_pool(&mut c.rng, which >= 2); num_check_pool(c, which as u32, p) });
+            if which % 2 == 0 { ctx.case(t, "huge_invalid", idx, |c| { let p = huge_num_invalid_pool(&mut c.rng, which >= 2); num_check_pool(c, which as u32, p) }); }
+        }
+        for (sh, sn) in LIST_SHAPES.iter().enumerate() {
+            if (sh as u64 + idx) % 2 == 1 && ctx.quick() { continue; } // quick: two of the four shapes per idx
+            let g = format!("huge_list/{sn}");
+            ctx.case("lex/sortedvec", &g, idx, |c| lex_sortedvec_huge(c, sh));
+            for (mode, t) in ["strvec/sortable_cmp", "strvec/sortable_radix", "strvec/sortable_bylen", "strvec/sortable_custom", "strvec/sortable_bsearch_block"].iter().enumerate() {
+                ctx.case(t, &g, idx, |c| { let n = *c.rng.pick(COUNTS); let l = counter_strings(&mut c.rng, n, sh); sortable_run(c, mode as u32, l) }); }
+        }
+        // ZoSortedStrVec::get costs O(total bytes) per call on this tree (linear select), so "huge" means: the concatenated data
+        // crosses 2^16 / 2^17 / 2^20 bytes (boundary-bit positions beyond those limits) with as many strings as the budget allows.
+        for (k, (total, n)) in [(65_537usize, 400usize), (131_073, 250), ((1 << 20) + 1, 70)].iter().enumerate() {
+            if ctx.quick() && (k as u64 + idx) % 3 == 2 { continue; }
+            for (mode, t) in ["strvec/zo_sorted", "strvec/zo_from_strings", "strvec/zo_from_sortable", "strvec/zo_range"].iter().enumerate() {
+                if ctx.quick() && (mode as u64 + idx + k as u64) % 2 == 1 { continue; }
+                ctx.case(t, &format!("huge_data/{total}"), idx, |c| { let sh = c.rng.usize_below(4); let mut l = counter_strings(&mut c.rng, *n, sh); for s in l.iter_mut() { let m: usize = s.chars().take(12).map(|ch| ch.len_utf8()).sum(); s.truncate(m); }
+                    let have: usize = l.iter().map(|s| s.len() + 1).sum(); let mut need = (total + c.rng.usize_below(64)).saturating_sub(have);
+                    let k = 1 + c.rng.usize_below(3); for i in 0..k { let part = if i + 1 == k { need } else { need / 2 }; need -= part; let ch = *c.rng.pick(&['L', 'é', '\u{10ffff}', ' ']); l.push(std::iter::repeat(ch).take(part / ch.len_utf8() + 1).collect()); }
+                    c.rng.shuffle(&mut l); zo_run(c, mode as u32, l) }); }
+        }
+        ctx.case("lex/streaming", "huge_text", idx, |c| { let t = huge_text(&mut c.rng, true); lex_streaming_run(c, t) });
+        for (w, t) in ["line/process", "line/batches", "line/batches_stop", "line/count", "line/utils", "line/analyze", "line/secure_cfg"].iter().enumerate() {
+            ctx.case(t, "huge_text", idx, |c| { let t = huge_text(&mut c.rng, false); line_run(c, w as u32, t) }); }
+        for (w, t) in ["join/bytes", "join/str", "join/fast_str", "join/iter", "join/bytes_iter", "join/builder"].iter().enumerate() { ctx.case(t, "huge_parts", idx, |c| join_huge(c, w as u32)); }
+        for (w, t) in ["word/boundary", "word/words", "word/at_position"].iter().enumerate() { ctx.case(t, "huge_text", idx, |c| word_huge(c, w as u32)); }
+        for (w, t) in ["line/splitter_simple", "line/splitter_custom", "line/splitter_optimized"].iter().enumerate() { ctx.case(t, "huge_fields", idx, |c| splitter_huge(c, w as u32)); }
+        for (w, t) in ["unicode/validate_count", "unicode/utf32_iter", "unicode/analyze", "unicode/case", "case/ascii_bmi2"].iter().enumerate() { ctx.case(t, "huge_mix", idx, |c| unicode_huge(c, w as u32)); }
+    }
 }
